@@ -71,10 +71,13 @@ def vcf_case(draw):
         # sites with many mutations: make all states distinct so that >9 alleles occur
         for j in range(len(sites)):
             rows = [k for k, m in enumerate(muts) if m[0] == j]
-            if len(rows) >= 9 and draw(st.integers(0, 3)) < 3:
+            if len(rows) >= 8 and draw(st.integers(0, 3)) < 3:
+                # `target` distinct derived states + the ancestral state: exactly 9 alleles (the most a
+                # VCF line may carry, also together with missing calls), 10, or as many as there are rows
+                target = draw(st.sampled_from([8, 8, 9, len(rows)]))
                 sites[j][1] = alpha[0]
                 for q, k in enumerate(rows):
-                    muts[k][2] = alpha[(q + 1) % len(alpha)]
+                    muts[k][2] = alpha[(min(q, target - 1) + 1) % len(alpha)]
     layout = draw(st.sampled_from(["clean", "none", "clean", "table_only", "clean", "raw", "none", "clean"]))
     nodes = [list(r) for r in spec["nodes"]]
     inds = [list(r) for r in spec["individuals"]]
@@ -370,6 +373,7 @@ def run_vcf(case, ctx):
         errs.add("position zero")
     many_unmasked = any(len(site_states(spec, j)) > 9 and not masked[j] for j in range(ns))
     many_masked = any(len(site_states(spec, j)) > 9 and masked[j] for j in range(ns))
+    ctx.label("exactly9_alleles_unmasked", any(len(site_states(spec, j)) == 9 and not masked[j] for j in range(ns)))
     ctx.label("gt9_alleles_unmasked", many_unmasked)
     ctx.label("gt9_alleles_masked", many_masked)
     if many_unmasked:
